@@ -63,6 +63,7 @@ type Workload struct {
 	PrefixChurners int  `json:"prefix_churners"` // the same with a prefix subscription "c08."
 	WildChurners   int  `json:"wild_churners"`   // the same with a wildcard subscription "c08."
 	StallMs        int  `json:"stall_ms"`        // the small-queue caller stops reading for that long (once)
+	YieldGapMs     int  `json:"yield_gap_ms"`    // callees send the k-th YIELD of an invocation no earlier than k gaps after it
 	DupReg         int  `json:"dup_reg"`         // sessions that REGISTER a shared procedure twice, UNREGISTER once
 }
 
@@ -102,8 +103,11 @@ func genWorkload(seed uint64, profile string) Workload {
 	case "stall":
 		// the caller's queue stays full for more than a second while the callee keeps yielding
 		w.Callees, w.Procs = 1, 1
-		w.Callers, w.CallsPer, w.Chunks, w.SmallQ = 1, r.in(1, 3), r.in(20, 50), 1
-		w.StallMs = r.in(1150, 1700)
+		// (the callee paces its YIELDs so that the call is still alive when a RESULT that
+		// was blocked for more than a second is finally retried)
+		w.Callers, w.CallsPer, w.Chunks, w.SmallQ = 1, 1, r.in(44, 56), 1
+		w.StallMs = r.in(1150, 1600)
+		w.YieldGapMs = 50
 	case "history":
 		// subscriptions that keep an event history: unsubscribing as the only holder and as one of several
 		w.History = true
@@ -557,15 +561,25 @@ func runBurst(w Workload) (clients []*cli, st stats, err error) {
 			}
 			atomic.AddInt64(&st.Invocations, 1)
 			prog, _ := inv.Details["receive_progress"].(bool)
+			t0 := time.Now()
+			gap := time.Duration(w.YieldGapMs) * time.Millisecond
 			if prog {
 				for k := 0; k < chunks; k++ {
+					due := t0.Add(time.Duration(k) * gap)
 					c.send(func(seq int) wamp.Message {
+						if gap > 0 {
+							time.Sleep(time.Until(due))
+						}
 						atomic.AddInt64(&st.Yields, 1)
 						return &wamp.Yield{Request: inv.Request, Options: wamp.Dict{"progress": true}, Arguments: wamp.List{me, seq}}
 					})
 				}
 			}
+			due := t0.Add(time.Duration(chunks) * gap)
 			c.send(func(seq int) wamp.Message {
+				if gap > 0 {
+					time.Sleep(time.Until(due))
+				}
 				atomic.AddInt64(&st.Yields, 1)
 				return &wamp.Yield{Request: inv.Request, Options: wamp.Dict{}, Arguments: wamp.List{me, seq}}
 			})
